@@ -338,13 +338,27 @@ class CGen:
             return num(r.randint(0, 9))
         return par(self.num_expr(env, d - 1))
 
+    targets = ()        # names an assignment nested in an expression may write (number-valued globals of the history)
+
     def num_expr(self, env, d):
         r = self.r
         k = r.random()
         if d <= 0 or k < 0.12:
             return self.atom_num(env, d)
-        if k < 0.35:
+        if k < 0.3:
             return bop(r.choice('+-*'), self.atom_num(env, d - 1), self.atom_num(env, d - 1))
+        if k < 0.4 and d >= 2:
+            # an assignment inside the expression (so: inside lambda bodies and lazily evaluated arguments) whose
+            # right-hand side is evaluated in the current lexical scope, followed by a use of the assigned name
+            v = self.vis(env)
+            ok = [t for t in self.targets if v.get(t) in (None, 'N')]
+            if ok:
+                t = r.choice(ok)
+                rhs = self.num_expr(env, d - 2)
+                return par(seq(setv(t, rhs), self.num_expr(env + ([] if t in v else [(t, 'N')]), d - 2)))
+        if k < 0.44:
+            # closure - number applies the closure to the negated number
+            return bop('-', self.fn_atom(env, d - 1), num(r.randint(1, 5)))
         if k < 0.7:
             f = self.fn_atom(env, d - 1)
             a = self.atom_num(env, d - 1, prefer=binders(f) | set(POOL))
@@ -370,6 +384,12 @@ class CGen:
                 return par(a)
         if k < 0.63:
             return idt('abs')
+        if k < 0.75 and d > 0:
+            # arithmetic between a number and a closure (either side) builds a new lambda that must keep the
+            # closure's captured scope; the closure is preferably a stored or partially applied one
+            g = self.fn_atom(env, d - 1)
+            n = num(r.randint(1, 4))
+            return par(bop(r.choice('+*'), g, n) if r.random() < 0.5 else bop(r.choice('+*'), n, g))
         x = r.choice(POOL)
         return par(fn(x, self.num_expr(env + [(x, 'N')], d - 1)))
 
@@ -424,13 +444,20 @@ def gen_collision_history(r, nsteps=None, faulty=False):
         gtypes[name] = 'N'; edges[name] = set()
         steps.append(setv(name, num(r.randint(1, 9))))
         env.append((name, 'N'))
+    def note_nested(e_):
+        # names assigned somewhere inside e_ become number-valued globals (if the assignment runs at all)
+        for t in assigns(e_):
+            gtypes.setdefault(t, 'N'); edges.setdefault(t, set())
+
     n = nsteps or r.randint(3, 7)
     for _ in range(n):
+        g.targets = [t for t in POOL if gtypes.get(t, 'N') == 'N']
         k = r.random()
         if k < 0.5:
             name = r.choice(POOL)
             t = gtypes.get(name) or r.choice(['N', 'N', 'F', 'F', 'F2', 'H'])
             for _try in range(6):
+                g.targets = [x_ for x_ in POOL if gtypes.get(x_, 'N') == 'N' and x_ != name]
                 e = g.any_of(t, env, 3)
                 frees = idents(e) & set(POOL)
                 if not cyclic(name, frees):
@@ -439,10 +466,13 @@ def gen_collision_history(r, nsteps=None, faulty=False):
                 continue
             gtypes[name] = t
             edges[name] = frees
+            note_nested(e)
             steps.append(setv(name, e))
             env = [(a, b) for a, b in env if a != name] + [(name, t)]
         elif k < 0.92:
-            steps.append(g.num_expr(env, 3))
+            e = g.num_expr(env, 3)
+            note_nested(e)
+            steps.append(e)
         else:
             nm = r.choice(POOL)
             if gtypes.get(nm, 'N') != 'N':
@@ -809,6 +839,73 @@ def check(c):
                 c.violation('alpha-law-broken', dict(rep, kind='impl-vs-spec', step=j, input=hp[i][j], renamed_input=hp[nal + i][j],
                                                       P_result=ra[1], P_renamed_result=rb[1])); break
     c.extra['alpha_pairs'] = nal
+
+    # ------------------------------------------------------------------
+    # (2c) arithmetic between a number and a closure: (n op g) a  =  n op (g a)  and  (g op n) a  =  (g a) op n, for every
+    # operator that builds a lambda (+ * / ^ mod).  The new lambda must keep g's captured scope: g is a stored or
+    # partially applied closure of a collision history, so its captured names also exist as globals with other values.
+    fa = []
+    nfa = 300 if c.tier == 'quick' else 6000
+    for _ in range(nfa):
+        pre, env = gen_collision_history(r, nsteps=r.randint(2, 5))
+        g = CGen(r)
+        G = g.fn_atom(env, 2)
+        if G == idt('abs'):
+            continue
+        n_ = num(r.randint(2, 5))
+        A = g.atom_num(env, 1)
+        op = r.choice(['+', '*', '/', '^', 'mod'])
+        if r.random() < 0.5:
+            lhs = application(par(bop(op, n_, G)), A); rhs = bop(op, n_, par(application(G, A) or A))
+        else:
+            lhs = application(par(bop(op, G, n_)), A); rhs = bop(op, par(application(G, A) or A), n_)
+        if lhs is None or application(G, A) is None:
+            continue
+        fa.append((pre + [lhs], pre + [rhs]))
+    hp = [[show(e) for e in a] for a, _ in fa] + [[show(e) for e in b] for _, b in fa]
+    _, fi, _ = run.run(hp) if hp else ({}, [], {})
+    nf = len(fa)
+    for i in range(nf):
+        a, b = fi[i], fi[nf + i]
+        rep = {'law': 'number-closure-arithmetic', 'P': hp[i], 'P_applied_first': hp[nf + i]}
+        c.note_case('fa:' + '|'.join(hp[i]), True, 'closure-arithmetic-pair')
+        if a is None or b is None:
+            c.violation('closure-arithmetic-pair-crashed', dict(rep, kind='impl-crash')); continue
+        ra, rb = impl_step(a[-1]), impl_step(b[-1])
+        if ra[0] != rb[0] or (ra[0] and ra[1] != rb[1]) or ((not ra[0]) and errcode(ra[1]) != errcode(rb[1])):
+            c.violation('closure-arithmetic-law-broken', dict(rep, kind='impl-vs-spec', P_result=ra[1], P_applied_first_result=rb[1]))
+    c.extra['closure_arithmetic_pairs'] = nf
+
+    # ------------------------------------------------------------------
+    # (2d) saving and reloading the variables in the middle of a history changes nothing that follows (closures whose
+    # captured chain binds the same name twice are common in the shadowing and collision streams)
+    rt = []
+    for k, h in enumerate(hist_ast):
+        if FAMILIES[k % len(FAMILIES)] in ('typed', 'failures') or len(h) < 2:
+            continue
+        j = r.randint(1, len(h) - 1)
+        t = [show(e) for e in h]
+        rt.append((t, t[:j] + ['@@roundtrip'] + t[j:], j))
+    if len(rt) > (300 if c.tier == 'quick' else 8000):
+        rt = r.sample(rt, 300 if c.tier == 'quick' else 8000)
+    il = c.impl('eval', [evalseq_req(0, [(x, -1) for x in a]) for a, _, _ in rt] + [evalseq_req(0, [(x, -1) for x in b]) for _, b, _ in rt])
+    nrt, rt_failed = len(rt), 0
+    for i, (a_, b_, j) in enumerate(rt):
+        oa, ob = il[i], il[nrt + i]
+        rep = {'law': 'roundtrip', 'P': a_, 'P_with_roundtrip': b_}
+        c.note_case('rt:' + '|'.join(b_), True, 'roundtrip-pair')
+        if crashed(oa) or crashed(ob):
+            c.violation('roundtrip-pair-crashed', dict(rep, kind='impl-crash', impl=ob[:120])); continue
+        pa, pb = parse_sx(oa), parse_sx(ob)
+        if pb[j][0][0] != b'o':
+            rt_failed += 1      # the image could not be written or read back: C12's subject
+            continue
+        for q in range(j, len(a_)):
+            ra, rb = impl_step(pa[q]), impl_step(pb[q + 1])
+            if (ra[0], ra[1]) != (rb[0], rb[1]) or ra[3] != rb[3]:
+                c.violation('roundtrip-changed-behaviour', dict(rep, kind='impl-vs-spec', step=q, input=a_[q], without=ra[1], with_roundtrip=rb[1])); break
+    c.extra['roundtrip_pairs'] = nrt
+    c.extra['roundtrip_step_failed'] = rt_failed
 
     # ------------------------------------------------------------------
     # (3) let-substitution: g = e; uses of g   vs   uses of (e)
